@@ -109,6 +109,25 @@ func runHistoryCase(res *core.Result, dir string, initial []byte, ops []histOp, 
 			if err != nil && op.T >= origin && op.T-origin < histMaxSlots {
 				res.Fail("load of an addressable slot fails", "load-error", replay(i))
 			}
+		case "save-fault":
+			// the storage refuses the write (read-only handle; reads and fsync still work): the save must
+			// not report success unless nothing had to be written, and the file stays as it was
+			cur := histReadSlot(before, origin, op.T)
+			if ferr := c.VerifHistoryWriteFault(true); ferr != nil {
+				return false, nil, ferr
+			}
+			err := c.VerifSaveReading(op.T, op.V)
+			c.VerifHistoryWriteFault(false)
+			op.OK = err == nil
+			after, _ := histRead(hp)
+			if !bytes.Equal(before, after) {
+				res.Fail("a save under a write fault changed the history file", "write-fault-writes", replay(i))
+			}
+			if _, inRange := histSlotPos(origin, op.T); err == nil && inRange && op.T-origin < histMaxSlots && cur != op.V {
+				v, _ := c.VerifLoadReading(op.T)
+				res.Fail(fmt.Sprintf("the write of reading %d for slot %d failed (storage fault) but the save reports success: the client goes on to sign and send it, a later load returns %d and a different reading for the slot is then accepted as the first one", op.V, op.T, v), "write-fault-swallowed", replay(i))
+			}
+			res.Count("history.write-fault")
 		case "save":
 			err := c.VerifSaveReading(op.T, op.V)
 			op.OK = err == nil
@@ -210,6 +229,9 @@ func historySuite(seed uint64, tier, outDir string) (*core.Result, error) {
 		changed, refused := false, false
 		canon := fmt.Sprintf("%x|", initial)
 		for _, op := range ops {
+			if op.Kind == "save-fault" {
+				continue // leaves the store as it is (checked by the oracle); the model has no storage faults
+			}
 			k := "0"
 			if op.Kind == "load" {
 				k = "1"
@@ -314,6 +336,11 @@ func historySuite(seed uint64, tier, outDir string) (*core.Result, error) {
 		if err := emit("offset-wrap", hdr(o), ops); err != nil {
 			return nil, err
 		}
+	}
+	res.Count("write-fault")
+	F := func(t, v uint32) histOp { return histOp{Kind: "save-fault", T: t, V: v} }
+	if err := emit("write-fault", hdr(20, 6), []histOp{F(25, 300), L(25), S(25, 301), L(25), F(25, 301), F(25, 302), F(20, 6), F(20, 7), F(19, 5), F(4000, 9), L(4000)}); err != nil {
+		return nil, err
 	}
 	res.Count("origin-top")
 	if err := emit("origin-top", hdr(1<<32-2), []histOp{S(1<<32-1, 4), S(1<<32-2, 6), S(1<<32-3, 6), L(1<<32 - 1), S(0, 3), L(0)}); err != nil {
@@ -423,7 +450,11 @@ func historySuite(seed uint64, tier, outDir string) (*core.Result, error) {
 				if cls == "gen.far" {
 					v = 0 // a non-zero value would create a file the model cannot hold as a byte list
 				}
-				ops = append(ops, S(t, v))
+				if rng.Chance(12) && cls != "gen.far" {
+					ops = append(ops, histOp{Kind: "save-fault", T: t, V: v})
+				} else {
+					ops = append(ops, S(t, v))
+				}
 			} else {
 				ops = append(ops, L(t))
 			}
